@@ -267,6 +267,18 @@ def jobs(tier):
                                bounds='parameter list %s, pool %s, pre-assignment in {none, first:=B, first:=out B, last:=B}, '
                                       'variance choices in {None, {}, first:(True,False)}, both switches, every RNG outcome'
                                       % (shape, pool_kind), outside=OUT))
+    # the instantiation helpers as the generator calls them: receivers and type arguments chosen by _gen_func_call /
+    # _get_matching_class / _get_matching_objects (unit harness of vlib/genunits.py, obligations tagged C08)
+    from vlib import genunits as GU
+    for lang in (['java'] if tier == 'quick' else ['java', 'groovy', 'kotlin']):
+        out.append(Job('generator-call-site-gen_func_call-%s' % lang, GU.harness,
+                       dict(lang=lang, unit='gen_func_call', aspect='C08', nvars=0, with_nested=True,
+                            sym_draws=3 if tier == 'quick' else 5),
+                       split_depth=6, functions=GU.FUNCS['gen_func_call'], stubs=GU.STUBS, budget_s=2400, crosscheck_every=500,
+                       require_events=['unit:gen_func_call'],
+                       bounds='generator unit _gen_func_call on the symbolic scope of vlib/genunits.py (generic class with a generic '
+                              'method, generic function with a bounded parameter, java pools include a primitive): type arguments of '
+                              'receivers and calls are usable types within their bounds', outside=OUT))
     return out
 
 
